@@ -413,6 +413,56 @@ def pred_babinet_wavefront(c):
     return None if err <= L.tol_of(c, TOL) else f'babinet(B) != lyot*(field - T(1) + T(B)) (rel. err {err:.3g})'
 
 
+def _ref_T(f, mask, dx, efl, lam, fdx):
+    """to_fpm_and_back without shift as explicit physical-units DFT sums (independent of prysm)"""
+    m, n = f.shape
+    My, Mx = mask.shape
+    a = dx * fdx / (lam * efl)
+    cen = lambda k: np.arange(k) - k // 2     # noqa: E731
+    Ey = np.exp(-2j * np.pi * a * np.outer(cen(My), cen(m)))
+    Ex = np.exp(-2j * np.pi * a * np.outer(cen(n), cen(Mx)))
+    after = (a * (Ey @ f @ Ex)) * mask
+    return a * (np.conj(Ey).T @ after @ np.conj(Ex).T)
+
+
+def _bab_args(c):
+    f = _cfield(c)
+    mk = _mask(c)
+    lyot = None if c.get('lyot') == 'none' else (_field(c['seed'] + 21, f.shape) if c.get('lyot') == 'complex'
+                                                 else (_field(c['seed'] + 21, f.shape).real > -0.3).astype(float))
+    return f, mk, lyot
+
+
+def _bab_call(c, f, mk, lyot):
+    pr, _ = _impl()
+    wf = pr.Wavefront(f, c['lam'], c['dx'])
+    if c.get('mask_wf'):
+        mko = pr.Wavefront(_num(np.asarray(mk)).astype(complex), c['lam'], c['fdx'], 'psf')
+        return wf.babinet(c['efl'], lyot, mko, None if c['mask_wf'] is True else c['fdx'], method=c['method'])
+    return wf.babinet(c['efl'], lyot, mk, c['fdx'], method=c['method'])
+
+
+def pred_babinet_model(c):
+    """Wavefront.babinet(efl, lyot, fpm, fpm_dx) = lyot * (field - return through the complement 1 - fpm), against explicit
+    physical-units sums; the result is a pupil-plane Wavefront with the pupil's dx; arguments untouched"""
+    f, mk, lyot = _bab_args(c)
+    snaps = [x.copy() for x in (f, mk)] + ([lyot.copy()] if lyot is not None else [])
+    out = _bab_call(c, f, mk, lyot)
+    bad = L.check_wavefront(out, 'babinet(...)', f.shape, c['dx'], c['lam'], 'pupil')
+    if bad:
+        return bad
+    if not _unchanged((f, mk) + ((lyot,) if lyot is not None else ()), snaps):
+        return 'the field, the mask or the Lyot stop was modified in place'
+    fc = L.as_complex(f)
+    ref = fc - _ref_T(fc, 1 - _num(np.asarray(mk)).astype(complex), c['dx'], c['efl'], c['lam'], c['fdx'])
+    if lyot is not None:
+        ref = lyot * ref
+    err = _relerr(out.data, ref)
+    if err > L.tol_of(c, TOL):
+        return f'babinet differs from lyot * (field - return through 1 - mask) (rel. err {err:.3g}; method {c["method"]}, mask {np.asarray(mk).dtype})'
+    return None
+
+
 PREDS = {'linear': pred_linear, 'pad': pred_pad, 'transpose': pred_transpose, 'methods_agree': pred_methods_agree,
          'exec_transpose': pred_exec_transpose, 'exec_pad': pred_exec_pad, 'exec_separable': pred_exec_separable,
          'allpass': pred_allpass, 'babinet': pred_babinet, 'babinet_wavefront': pred_babinet_wavefront,
@@ -450,7 +500,7 @@ def pred_pure(c):
     return None
 
 
-PREDS.update({'fixed_vs_model': pred_pure, 'exec_vs_model': pred_pure, 'fpm_vs_model': pred_pure})
+PREDS.update({'fixed_vs_model': pred_pure, 'exec_vs_model': pred_pure, 'fpm_vs_model': pred_pure, 'babinet_vs_model': pred_babinet_model})
 
 
 def eval_pred(item, c):
@@ -620,6 +670,25 @@ def correspondence(ctx):
             j, k = int(rng.integers(c['m'])), int(rng.integers(c['n']))
             lines.append(' '.join(['fpmpt'] + head[1:] + [str(j), str(k)] + nums + _wire_field(f) + _wire_field(mk)))
             meta.append(('fpmpt', (c, f, mk, sh, j, k)))
+    for i in range(max(20, n_fpm // 2)):
+        c = gen_fpm(rng, hi, i) if i % 3 else dict(gen_allpass(rng, hi, i), mask=['real', 'complex', 'binary'][i % 3 - 1] if i % 9 else 'bool')
+        if 'M' in c and 'My' not in c:
+            c['My'] = c['Mx'] = c['M']
+        if min(c['m'], c['n']) < 1:
+            continue
+        c['shift'] = [0, 0]
+        c['lyot'] = ['complex', 'binary', 'none'][i % 3]
+        c['mask_wf'] = [False, True, 'with_dx', False][i % 4]
+        f, mk, lyot = _bab_args(c)
+        head = ['bab', str(c['m']), str(c['n']), str(c['My']), str(c['Mx'])]
+        nums = [C.f2w(v) for v in (c['dx'], c['efl'], c['lam'], c['fdx'])]
+        data = _wire_field(f) + _wire_field(_num(np.asarray(mk))) + _wire_field(lyot if lyot is not None else np.ones(f.shape))
+        lines.append(' '.join(head + nums + data))
+        meta.append(('bab', (c, None, None)))
+        if i < 4:
+            j, k = int(rng.integers(c['m'])), int(rng.integers(c['n']))
+            lines.append(' '.join(['babpt'] + head[1:] + [str(j), str(k)] + nums + data))
+            meta.append(('babpt', (c, j, k)))
     replies = C.lean_driver('C05', lines)
 
     for (kind, dat), rep in zip(meta, replies):
@@ -662,6 +731,37 @@ def correspondence(ctx):
             err = _relerr(a, b) if out.shape == mod.shape else float('inf')
             if err > L.tol_of(c, TOL):
                 ctx.disagree('exec_vs_model', c, f'shape {out.shape}', f'rel. err {err:.3g}')
+            continue
+        if kind in ('bab', 'babpt'):
+            c = dat[0]
+            f, mk, lyot = _bab_args(c)
+            Mtag = 'band-complete' if ('M' in c and c['My'] == c['Mx'] == c['M']) else 'general'
+            tag = f"{c['mask']}/{c['method']}/{'sq' if c['m'] == c['n'] else 'nonsq'}/lyot-{c['lyot']}/mask-wf-{c['mask_wf']}/{Mtag}"
+            ctx.case('babinet_vs_model', c, nontrivial=f.size > 1, tag=tag)
+            try:
+                out = _bab_call(c, f, mk, lyot)
+                d = pred_babinet_model(c)       # independent oracle + container + purity on the same case
+                if d is not None:
+                    ctx.pred_fail('babinet_vs_model', c, d)
+                bad = L.check_wavefront(out, 'babinet(...)', f.shape, c['dx'], c['lam'], 'pupil')
+                if bad:
+                    ctx.disagree('babinet_vs_model', c, bad, 'a pupil-plane Wavefront', note='returned container')
+                    continue
+                out = out.data
+            except Exception as ex:
+                ctx.disagree('babinet_vs_model', c, f'raised {type(ex).__name__}: {ex}', 'model returns a field')
+                continue
+            if kind == 'babpt':
+                j, k = dat[1], dat[2]
+                re, im = rep.split()
+                mod = C.w2f(re) + 1j * C.w2f(im)
+                if abs(out[j, k] - mod) > L.tol_of(c, TOL) * max(1.0, np.abs(out).max()):
+                    ctx.disagree('babinet_vs_model', dict(c, point=[j, k]), complex(out[j, k]), mod, note='Model.C05.babinet pointwise')
+                continue
+            mod = _unwire_field(rep.split(), f.shape)
+            err = _relerr(out, mod) if out.shape == mod.shape else float('inf')
+            if err > L.tol_of(c, TOL):
+                ctx.disagree('babinet_vs_model', c, f'shape {out.shape}', f'rel. err {err:.3g}')
             continue
         if kind in ('fpm', 'fpmpt'):
             c, f, mk, sh = dat[:4]
